@@ -202,6 +202,36 @@ func vbEntryPoints() []vbEP {
 		}
 		return ""
 	}})
+	// the adapter transport's read loop over a stream that carries exactly these bytes and then ends:
+	// whatever they are, the loop ends with a cause on Closed() (it may not bring the process down)
+	eps = append(eps, vbEP{name: "fAdapterTransport.readLoop", run: func(b []byte) string {
+		p := vfNewPipe()
+		fed, ended := false, false
+		p.next = func(p *vfPipe) bool {
+			switch {
+			case !fed && len(b) > 0:
+				fed = true
+				p.inbound = append([]byte{}, b...)
+				return true
+			case !ended && len(p.inbound) == 0:
+				ended = true
+				p.readErr = thrift.NewTTransportExceptionFromError(io.EOF)
+				return true
+			}
+			return false
+		}
+		tr := NewAdapterTransport(p)
+		if err := tr.Open(); err != nil {
+			return ""
+		}
+		if ch := tr.Closed(); ch != nil {
+			vsched.Recv2(ch)
+		}
+		if tr.IsOpen() {
+			return "the adapter transport is still open after its stream ended"
+		}
+		return ""
+	}})
 	eps = append(eps, vbEP{name: "getHeadersFromFrame", run: func(b []byte) string {
 		// unmarshalFrame / addHeadersToFrame are not reachable from any receive path of lib/go
 		// (no non-test caller), so only the reader the registry uses is driven here
